@@ -35,6 +35,11 @@ def hof(elem, k, *body):
     return ("hof", elem, k, tuple(body))
 
 
+def condq(c):
+    """`c ß?`: the conditional-execute modifier around the input element (an explicit read happens iff c is truthy, and nothing else is read)"""
+    return ("condq", c)
+
+
 def lst(*items):
     return ("list", tuple(tuple(i) for i in items))
 
@@ -55,6 +60,8 @@ def render(op):
         return "X"
     if t == "lam":
         return "λ%d|%s;†" % (op[1], "".join(render(o) for o in op[2]))
+    if t == "condq":
+        return "%d ß?" % op[1]
     if t == "hof":
         return "⟨7|8⟩λ%d|%s;%sL_" % (op[2], "".join(render(o) for o in op[3]), op[1])
     if t == "fn":
@@ -140,6 +147,10 @@ class Model:
                 res = self.pop(inner, 1)[0]            # the result is the top of the lambda's stack (a read if empty)
                 self.scopes.pop()
                 stack.append(res)
+            elif t == "condq":
+                stack.append(op[1])
+                if self.pop(stack, 1)[0]:
+                    stack.append(self.explicit())
             elif t == "hof":
                 for x in (7, 8):
                     inner = [x]                       # exactly the values it was handed, whatever arity it declares
@@ -357,18 +368,19 @@ def _e2e_shard(args):
 
 
 MENU_A = [Q, P1, P2, P3, PUSH, lam(1, P1, P1), lam(2, P1, P1, P1, Q), fn(1, P1, P1), lst((P1,), (Q,)), fn(1, P1, BRK, P1),
-          hof("M", 2, P1, P1, Q)]
+          hof("M", 2, P1, P1, Q), condq(1)]
 INNER = [(), (P1,), (Q,), (P1, P1), (P2,), (Q, P1), (P1, P1, P1), (PUSH, P3), (lam(1, P1, P1),), (P1, lam(0, P1), P1)]
 
 
 def menu_b():
     out = list(MENU_A)
-    for k in (0, 1, 2):
+    for k in (0, 1, 2, 3):
         for body in INNER:
             out.append(lam(k, *body))
-    for k in (0, 1, 2):
-        for body in INNER[:6]:
+    for k in (0, 1, 2, 3):       # a function declared with k parameters whose body pops more than k values reads its arguments cyclically
+        for body in INNER + [(P1, P1, P1, P1), (P3, P1, P1)]:
             out.append(fn(k, *body))
+    out += [condq(1), condq(0)]
     out += [fn(1, P1, BRK, P1), fn(2, P1, BRK, Q), fn(0, BRK, P1), lam(1, P1, BRK, P1), lam(2, P1, P1, BRK, P1), lam(0, BRK), loop(P1, BRK, Q),
             fn(1, lam(1, P1, BRK, P1), P1), lst((BRK, P1), (Q,)), fn(1, loop(BRK), P1, P1)]
     for k in (1, 2, 3):
@@ -450,8 +462,8 @@ def run(tier, seed):
                        "is wrapped from outside to log (kind, scope depth, value) of each outermost read; the model is a cursor automaton "
                        "with concrete stacks",
     })
-    rep.rule = ("input lists of length 0..4 (distinct sentinels) x ALL histories of length <=%d [thorough: plus length 6 over its first ten operations] over the 11-operation menu A "
-                "(? _ \" ∇ push, λ1 / λ2 with inner reads, a named function, a list literal, an early return, a map over ⟨7|8⟩ with a λ2) without dedup; ALL histories of length <=%d over "
+    rep.rule = ("input lists of length 0..4 (distinct sentinels) x ALL histories of length <=%d [thorough: plus length 6 over its first ten operations] over the 12-operation menu A "
+                "(? _ \" ∇ push, λ1 / λ2 with inner reads, a named function, a list literal, an early return, a map over ⟨7|8⟩ with a λ2, the input element under the conditional-execute modifier) without dedup; ALL histories of length <=%d over "
                 "the %d-operation menu B (lambda arities 0-2 x 10 inner read sequences incl. nested lambdas, functions, list items, "
                 "loops); BFS with dedup on (cursor mod n, stack height capped at 3) to depth 12 over menu B. Distinct = (history, inputs). "
                 "End to end: main.execute_vyxal (offline and online) with every list of 0..3 input TEXTS over %d texts (incl. ones that evaluate "
